@@ -113,6 +113,17 @@ def emission(log):
         k = e["k"]
         if k == "arr":
             pending_arr.append(e)
+        elif k == "app":
+            # Retry runs: what the server *application* received and sent before a connection existed counts towards the
+            # bytes received from / sent to that address; an Initial carrying the token issued to its source address
+            # validates the address (RFC 9000 8.1.2)
+            if e["what"] == "rx":
+                out.append({"ev": "rx", "ep": e["ep"], "addr": e["addr"], "len": e["len"]})
+            elif e["what"] == "retry":
+                out.append({"ev": "dg", "ep": e["ep"], "to": e["to"], "len": e["len"], "hasInitial": False,
+                            "initialAckEl": False, "chal": []})
+            elif e["what"] == "token-ok":
+                out.append({"ev": "auth", "ep": e["ep"], "addr": e["addr"], "kind": "token", "ids": []})
         elif k == "rx":
             out.append({"ev": "rx", "ep": e["ep"], "addr": e["addr"], "len": e["len"]})
             for a in pending_arr:
@@ -140,6 +151,12 @@ def flowsend(log):
     ms = cfg.get("max_streams") or 128
     # limits *given to* c are the server's configuration and vice versa
     out = [{"ev": "init", "sl_c": s_msd, "cl_c": s_md, "mb_c": ms, "mu_c": ms, "sl_s": c_msd, "cl_s": c_md, "mb_s": ms, "mu_s": ms}]
+    rem = cfg.get("remembered")
+    if rem:
+        # a resumed session: until it has processed the server's transport parameters the client works with the limits
+        # it remembers from the ticket (what the priming server was configured with); the server's own appear below,
+        # when the client reports ProtocolNegotiated (the call that parses them)
+        out[0].update({"sl_c": rem["max_stream_data"], "cl_c": rem["max_data"], "mb_c": rem["max_streams"], "mu_c": rem["max_streams"]})
     pk = {}
     for e in log:
         if e["k"] == "pkt":
@@ -168,6 +185,9 @@ def flowsend(log):
                 out.append({"ev": "reset", "ep": e["ep"], "sid": e["sid"]})
             elif e["call"] == "stop":
                 out.append({"ev": "reset", "ep": other(e["ep"]), "sid": e["sid"]})
+        elif k == "ev" and rem and e["ep"] == "c" and e["cls"] == "ProtocolNegotiated":
+            for kind, v in (("stream0", s_msd), ("conn", s_md), ("bidi", ms), ("uni", ms)):
+                out.append({"ev": "lim", "ep": "c", "kind": kind, "sid": 0, "value": v})
         elif k == "end":
             out.append({"ev": "end", "terminated": any(x["k"] == "ev" and x["cls"] == "ConnectionTerminated" for x in log)})
     return out
